@@ -362,3 +362,304 @@ Proof.
     exists d'. cbn. rewrite Ed, Em. auto.
 Qed.
 End ExecFacts.
+
+(* ------------------------------------------------------------------ *)
+(* the semantics of accepted paths                                      *)
+Lemma sem_merge_perm : forall l r, sem_merge l = Some r -> Permutation ((fun s : nset => s) r) (concat (map (fun s => s) l)).
+Proof. intros l r H. injection H as <-. rewrite map_id. apply Permutation_refl. Qed.
+Lemma sem_merge_total okl : forall l : list nset, okl (length l) = true -> sem_merge l <> None.
+Proof. intros l _. discriminate. Qed.
+
+Lemma content_id (l : list nset) : content (fun s => s) l = concat l.
+Proof. unfold content. now rewrite map_id. Qed.
+
+Lemma concat_singletons n : concat (singletons n) = seq 0 n.
+Proof.
+  unfold singletons. generalize 0. induction n as [|n IH]; intros k; cbn; [reflexivity|]. now rewrite IH.
+Qed.
+Lemma singletons_length n : length (singletons n) = n.
+Proof. unfold singletons. now rewrite map_length, seq_length. Qed.
+
+(* prefix form: whatever number of tensors is left, they partition the inputs *)
+Theorem linear_prefix_sound n p m : lin_run any_len n p = Some m ->
+  path_wf n p m /\
+  exists live, sem_linear n p = Some live /\ length live = m /\ Permutation (concat live) (seq 0 n).
+Proof.
+  intros H. split; [eapply lin_run_wf; eassumption|].
+  destruct (lin_exec_ok sem_merge any_len (sem_merge_total any_len) p (singletons n) m) as (live & E & L).
+  { now rewrite singletons_length. }
+  exists live. repeat split; try assumption.
+  pose proof (lin_exec_perm sem_merge (fun s => s) sem_merge_perm p _ _ E) as P.
+  rewrite !content_id, concat_singletons in P. exact P.
+Qed.
+
+Theorem path_valid_sound_linear n p : linear_path_valid n p = true ->
+  path_wf n p 1 /\
+  exists s, sem_linear n p = Some [s] /\ Permutation s (seq 0 n).
+Proof.
+  unfold linear_path_valid. destruct (lin_run any_len n p) as [[|[|k]]|] eqn:E; try discriminate. intros _.
+  destruct (linear_prefix_sound _ _ _ E) as (W & live & Es & L & P). split; [assumption|].
+  destruct live as [|s [|? ?]]; cbn in L; try discriminate.
+  exists s. split; [assumption|]. cbn in P. now rewrite app_nil_r in P.
+Qed.
+
+Lemma enumerate_keys {B} (l : list B) : forall k, map fst (enumerate_from k l) = seq k (length l).
+Proof. induction l as [|x l IH]; intros k; cbn; [reflexivity|]. now rewrite IH. Qed.
+Lemma enumerate_vals {B} (l : list B) : forall k, map snd (enumerate_from k l) = l.
+Proof. induction l as [|x l IH]; intros k; cbn; [reflexivity|]. now rewrite IH. Qed.
+Lemma enumerate_keys_ok {B} (l : list B) : keys_ok (enumerate_from 0 l) (length l).
+Proof.
+  split; rewrite enumerate_keys; [apply seq_NoDup|]. intros k Hk. apply in_seq in Hk. lia.
+Qed.
+
+(* each step of an accepted SSA path uses ids that exist and have not been used *)
+Inductive ssa_wf : list nat -> nat -> path -> list nat -> Prop :=
+| sw_nil av nx : ssa_wf av nx [] av
+| sw_cons av nx s p av' : s <> [] -> NoDup s -> (forall i, In i s -> In i av) ->
+    ssa_wf (remove_all s av ++ [nx]) (S nx) p av' -> ssa_wf av nx (s :: p) av'.
+
+Lemma nodup_b_NoDup l : nodup_b l = true -> NoDup l.
+Proof.
+  induction l as [|x l IH]; intros H; constructor; cbn in H; apply andb_prop in H as [H1 H2].
+  - apply negb_true_iff, memb_false in H1. exact H1.
+  - auto.
+Qed.
+Lemma NoDup_nodup_b l : NoDup l -> nodup_b l = true.
+Proof.
+  induction 1 as [|x l Hn Hd IH]; [reflexivity|]. cbn. rewrite IH, andb_true_r.
+  apply negb_true_iff, memb_false. exact Hn.
+Qed.
+
+Lemma ssa_run_wf : forall p av nx av' nx', ssa_run any_len av nx p = Some (av', nx') -> ssa_wf av nx p av'.
+Proof.
+  induction p as [|s p IH]; intros av nx av' nx' H; cbn in H.
+  - injection H as <- <-. constructor.
+  - destruct (ssa_step_ok any_len av s) eqn:E; [|discriminate].
+    unfold ssa_step_ok in E. apply andb_prop in E as [E E3]. apply andb_prop in E as [E1 E2].
+    econstructor; eauto.
+    + intros ->. discriminate.
+    + now apply nodup_b_NoDup.
+    + intros i Hi. rewrite forallb_forall in E3. apply memb_In. auto.
+Qed.
+
+Theorem ssa_prefix_sound n p av nx : ssa_run any_len (seq 0 n) n p = Some (av, nx) ->
+  ssa_wf (seq 0 n) n p av /\
+  exists d, sem_ssa n p = Some (d, nx) /\ map fst d = av /\
+            Permutation (concat (map snd d)) (seq 0 n).
+Proof.
+  intros H. split; [eapply ssa_run_wf; eassumption|].
+  pose proof (enumerate_keys_ok (singletons n)) as Hk. rewrite singletons_length in Hk.
+  destruct (ssa_exec_ok sem_merge any_len (sem_merge_total any_len) p
+              (enumerate_from 0 (singletons n)) n av nx Hk) as (d & E & K & _).
+  { rewrite enumerate_keys, singletons_length. exact H. }
+  exists d. repeat split; try assumption.
+  pose proof (ssa_exec_perm sem_merge (fun s => s) sem_merge_perm p _ _ E) as P.
+  cbn [fst] in P. unfold dcontent in P. rewrite !content_id, enumerate_vals, concat_singletons in P. exact P.
+Qed.
+
+Theorem path_valid_sound_ssa n p : ssa_path_valid n p = true ->
+  exists i s nx, ssa_wf (seq 0 n) n p [i] /\ sem_ssa n p = Some ([(i, s)], nx) /\ Permutation s (seq 0 n).
+Proof.
+  unfold ssa_path_valid. destruct (ssa_run any_len (seq 0 n) n p) as [[av nx]|] eqn:E; [|discriminate].
+  intros L. apply Nat.eqb_eq in L.
+  destruct (ssa_prefix_sound _ _ _ _ E) as (W & d & Es & K & P).
+  destruct d as [|[i s] [|? ?]]; cbn in K; subst av; cbn in L; try discriminate.
+  exists i, s, nx. repeat split; try assumption. cbn in P. now rewrite app_nil_r in P.
+Qed.
+
+(* ------------------------------------------------------------------ *)
+(* from_path                                                            *)
+Lemma pair_nodes_perm x y : Permutation (leaves (pair_nodes x y)) (leaves x ++ leaves y).
+Proof.
+  unfold pair_nodes. destruct (Nat.eqb (nleaves x) (nleaves y));
+    [destruct (Nat.ltb (tmin x) (tmin y))|destruct (Nat.ltb (nleaves y) (nleaves x))]; cbn;
+    try apply Permutation_refl; apply Permutation_app_comm.
+Qed.
+
+Lemma merge12_perm : forall l r, merge12 l = Some r -> Permutation (leaves r) (concat (map leaves l)).
+Proof.
+  intros [|x [|y [|z l]]] r H; cbn in H; try discriminate; injection H as <-; cbn.
+  - rewrite app_nil_r. apply Permutation_refl.
+  - rewrite app_nil_r. apply pair_nodes_perm.
+Qed.
+Lemma merge12_total : forall l, len12 (length l) = true -> merge12 l <> None.
+Proof. intros [|x [|y [|z l]]] H; cbn in *; try discriminate. Qed.
+
+Section FromPath.
+Variable sub : list nset -> path.
+
+Lemma contract_list_perm : forall l r, contract_list sub l = Some r ->
+  Permutation (leaves r) (concat (map leaves l)).
+Proof.
+  intros l r H. destruct l as [|x [|y [|z l]]].
+  - discriminate.
+  - injection H as <-. cbn. rewrite app_nil_r. apply Permutation_refl.
+  - injection H as <-. cbn. rewrite app_nil_r. apply pair_nodes_perm.
+  - unfold contract_list in H.
+    destruct (lin_exec merge12 (x :: y :: z :: l) (sub (map leaves (x :: y :: z :: l)))) as [[|parent [|? ?]]|] eqn:E;
+      try discriminate.
+    injection H as <-.
+    pose proof (lin_exec_perm merge12 leaves merge12_perm _ _ _ E) as P.
+    unfold content in P. cbn [map concat] in P. rewrite app_nil_r in P. exact P.
+Qed.
+
+(* the assumption on find_path: for 3 or more operands it returns a valid path of
+   pairwise (or single-operand) steps *)
+Hypothesis sub_valid : forall ls : list nset, 3 <= length ls -> binary_path_valid (length ls) (sub ls) = true.
+
+Lemma contract_list_total : forall l, any_len (length l) = true -> contract_list sub l <> None.
+Proof.
+  intros l H. destruct l as [|x [|y [|z l]]]; try discriminate.
+  unfold contract_list. set (L := x :: y :: z :: l).
+  assert (HL : 3 <= length (map leaves L)) by (rewrite map_length; cbn; lia).
+  specialize (sub_valid (map leaves L) HL). unfold binary_path_valid in sub_valid.
+  rewrite map_length in sub_valid.
+  destruct (lin_run len12 (length L) (sub (map leaves L))) as [[|[|k]]|] eqn:E; try discriminate.
+  destruct (lin_exec_ok merge12 len12 merge12_total _ L 1 E) as (live & E2 & L2).
+  rewrite E2. destruct live as [|p [|? ?]]; cbn in L2; try discriminate.
+Qed.
+
+Lemma leaf_forest_length n : length (leaf_forest n) = n.
+Proof. unfold leaf_forest. now rewrite map_length, seq_length. Qed.
+Lemma leaf_forest_content n : content leaves (leaf_forest n) = seq 0 n.
+Proof.
+  unfold content, leaf_forest. generalize 0. induction n as [|n IH]; intros k; cbn; [reflexivity|].
+  now rewrite IH.
+Qed.
+
+Lemma finish_forest_ok nodes : nodes <> [] ->
+  exists t, finish_forest sub nodes = Some t /\ Permutation (leaves t) (content leaves nodes).
+Proof.
+  intros Hne. unfold finish_forest.
+  assert (H : exists t, contract_list sub nodes = Some t).
+  { destruct (contract_list sub nodes) eqn:E; [eauto|]. exfalso.
+    eapply contract_list_total; [|exact E]. destruct nodes; [congruence|reflexivity]. }
+  destruct H as (t & E). pose proof (contract_list_perm _ _ E) as P.
+  destruct nodes as [|a [|b l]]; [congruence| |]; eauto.
+Qed.
+
+(* from_path on ANY valid prefix (complete or not): a binary tree over exactly the inputs *)
+Theorem from_path_linear_complete n p m : 1 <= n -> lin_run any_len n p = Some m ->
+  exists t, from_path_linear sub n p = Some t /\ Permutation (leaves t) (seq 0 n).
+Proof.
+  intros Hn H. unfold from_path_linear.
+  destruct (lin_exec_ok (contract_list sub) any_len contract_list_total p (leaf_forest n) m) as (nodes & E & L).
+  { now rewrite leaf_forest_length. }
+  rewrite E. pose proof (lin_exec_perm _ leaves contract_list_perm _ _ _ E) as P.
+  rewrite leaf_forest_content in P.
+  assert (Hm : 1 <= m) by (eapply lin_run_pos; eassumption).
+  destruct (finish_forest_ok nodes) as (t & Et & Pt); [intros ->; cbn in L; lia|].
+  exists t. split; [assumption|]. eapply perm_trans; eassumption.
+Qed.
+
+Lemma ssa_run_nonempty okl : forall p av nx av' nx', ssa_run okl av nx p = Some (av', nx') -> av <> [] -> av' <> [].
+Proof.
+  induction p as [|s p IH]; intros av nx av' nx' H Hne; cbn in H.
+  - injection H as <- <-. assumption.
+  - destruct (ssa_step_ok okl av s); [|discriminate]. eapply IH; [eassumption|].
+    intros Hc. apply app_eq_nil in Hc as [_ Hc]. discriminate.
+Qed.
+
+Theorem from_path_ssa_complete n p av nx : 1 <= n -> ssa_run any_len (seq 0 n) n p = Some (av, nx) ->
+  exists t, from_path_ssa sub n p = Some t /\ Permutation (leaves t) (seq 0 n).
+Proof.
+  intros Hn H. unfold from_path_ssa.
+  pose proof (enumerate_keys_ok (leaf_forest n)) as Hk. rewrite leaf_forest_length in Hk.
+  destruct (ssa_exec_ok (contract_list sub) any_len contract_list_total p
+              (enumerate_from 0 (leaf_forest n)) n av nx Hk) as (d & E & K & _).
+  { rewrite enumerate_keys, leaf_forest_length. exact H. }
+  rewrite E. pose proof (ssa_exec_perm _ leaves contract_list_perm _ _ _ E) as P.
+  cbn [fst] in P. unfold dcontent in P. rewrite enumerate_vals, leaf_forest_content in P.
+  destruct (finish_forest_ok (map snd d)) as (t & Et & Pt).
+  { intros Hc. apply map_eq_nil in Hc. subst d. cbn in K. subst av.
+    eapply ssa_run_nonempty; [exact H| |reflexivity]. destruct n; [lia|discriminate]. }
+  exists t. split; [assumption|]. eapply perm_trans; eassumption.
+Qed.
+End FromPath.
+
+(* the table-driven oracle used by the correspondence satisfies the assumption *)
+Lemma chain_path_valid : forall k, 1 <= k -> lin_run len12 k (chain_path k) = Some 1.
+Proof.
+  induction k as [|k IH]; intros Hk; [lia|]. destruct k as [|k]; [reflexivity|].
+  change (chain_path (S (S k))) with ([S k - 1; S k] :: chain_path (S k)).
+  cbn [lin_run]. replace (step_ok len12 (S (S k)) [S k - 1; S k]) with true.
+  - replace (S (S k) - length [S k - 1; S k] + 1) with (S k) by (cbn; lia). apply IH. lia.
+  - symmetry. unfold step_ok. cbn [length len12 Nat.eqb orb andb sort_desc fold_right ins_desc].
+    replace (Nat.leb (S k - 1) (S k)) with true by (symmetry; apply Nat.leb_le; lia).
+    cbn [strict_desc_b]. rewrite andb_true_r.
+    apply andb_true_intro. split; apply Nat.ltb_lt; lia.
+Qed.
+Lemma sub_of_table_valid tbl : forall ls : list nset, 3 <= length ls ->
+  binary_path_valid (length ls) (sub_of_table tbl ls) = true.
+Proof.
+  intros ls H. unfold sub_of_table.
+  assert (C : binary_path_valid (length ls) (chain_path (length ls)) = true).
+  { unfold binary_path_valid. rewrite chain_path_valid; [reflexivity|lia]. }
+  destruct (table_get tbl ls) as [p|]; [|exact C].
+  destruct (binary_path_valid (length ls) p) eqn:E; [exact E|exact C].
+Qed.
+
+(* ------------------------------------------------------------------ *)
+(* the checker for children maps                                        *)
+Inductive builds (ch : chmap) : tree -> nset -> Prop :=
+| B_leaf k : builds ch (Leaf k) [k]
+| B_node l r sl sr s : ch_get s ch = Some (sl, sr) ->
+    (forall x, In x s <-> In x sl \/ In x sr) ->
+    builds ch l sl -> builds ch r sr -> builds ch (Node l r) s.
+
+(* a complete contraction tree over n inputs: the map leads from the full set down to
+   the leaves, every input is a leaf exactly once, and the map has no other entries *)
+Definition tree_complete (n : nat) (ch : chmap) : Prop :=
+  exists t, builds ch t (seq 0 n) /\ Permutation (leaves t) (seq 0 n) /\ length ch = n - 1.
+
+Lemma subset_b_incl a b : subset_b a b = true -> incl a b.
+Proof. unfold subset_b. rewrite forallb_forall. intros H x Hx. apply memb_In. auto. Qed.
+
+Lemma build_tree_sound ch : forall fuel s t, build_tree fuel ch s = Some t -> builds ch t s.
+Proof.
+  induction fuel as [|f IH]; intros s t H; [discriminate|]. cbn [build_tree] in H.
+  assert (G : (exists k, s = [k] /\ t = Leaf k) \/
+              (exists l r tl tr, ch_get s ch = Some (l, r) /\ eqset_b s (l ++ r) = true /\
+                 build_tree f ch l = Some tl /\ build_tree f ch r = Some tr /\ t = Node tl tr)).
+  { destruct s as [|k [|k2 s']].
+    - right. destruct (ch_get [] ch) as [[l r]|]; [|discriminate].
+      destruct (eqset_b [] (l ++ r)) eqn:E; [|discriminate].
+      destruct (build_tree f ch l) as [tl|] eqn:E1; [|discriminate].
+      destruct (build_tree f ch r) as [tr|] eqn:E2; [|discriminate].
+      injection H as <-. exists l, r, tl, tr. auto.
+    - left. injection H as <-. eauto.
+    - right. destruct (ch_get (k :: k2 :: s') ch) as [[l r]|]; [|discriminate].
+      destruct (eqset_b (k :: k2 :: s') (l ++ r)) eqn:E; [|discriminate].
+      destruct (build_tree f ch l) as [tl|] eqn:E1; [|discriminate].
+      destruct (build_tree f ch r) as [tr|] eqn:E2; [|discriminate].
+      injection H as <-. exists l, r, tl, tr. auto. }
+  destruct G as [(k & -> & ->)|(l & r & tl & tr & Hg & He & H1 & H2 & ->)]; [constructor|].
+  econstructor; eauto.
+  unfold eqset_b in He. apply andb_prop in He as [Ha Hb].
+  apply subset_b_incl in Ha, Hb. intros x. split.
+  - intros Hx. apply in_app_or. auto.
+  - intros Hx. apply Hb. apply in_or_app. exact Hx.
+Qed.
+
+Lemma perm_seq_b_sound l n : perm_seq_b l n = true -> Permutation l (seq 0 n).
+Proof.
+  unfold perm_seq_b. intros H. apply andb_prop in H as [H H3]. apply andb_prop in H as [H1 H2].
+  apply Nat.eqb_eq in H1. apply nodup_b_NoDup in H2. rewrite forallb_forall in H3.
+  apply NoDup_Permutation_bis; [assumption|rewrite seq_length; lia|].
+  intros x Hx. apply in_seq. specialize (H3 x Hx). apply Nat.ltb_lt in H3. lia.
+Qed.
+
+Theorem tree_complete_b_sound n ch : tree_complete_b n ch = true -> tree_complete n ch.
+Proof.
+  unfold tree_complete_b. destruct (build_tree (S n) ch (seq 0 n)) as [t|] eqn:E; [|discriminate].
+  intros H. apply andb_prop in H as [H1 H2]. exists t. repeat split.
+  - eapply build_tree_sound; eassumption.
+  - now apply perm_seq_b_sound.
+  - now apply Nat.eqb_eq.
+Qed.
+
+Lemma builds_leaves ch t s : builds ch t s -> forall x, In x (leaves t) <-> In x s.
+Proof.
+  induction 1 as [k|l r sl sr s Hg Hs Hl IHl Hr IHr]; intros x; cbn; [tauto|].
+  rewrite in_app_iff, IHl, IHr, Hs. tauto.
+Qed.
